@@ -7,7 +7,7 @@ from sa.astx import call_attr, call_name, const_eval, lin_expect, lincmp, module
 from sa.effects import class_accesses
 from sa.selftest import Mutant, Silent
 from sa.source import AnalysisError
-from sa.props._lib_f import InterpError, MDeferred, MExc, MFailure, ModelRaised, NullLogger
+from sa.props._lib_f import Abstain, InterpError, MDeferred, MExc, MFailure, ModelRaised, NullLogger, inline_predicates, structural
 from sa.source import class_assigns, methods
 from sa.props._lib_f import (assign_sites, call_sites, catches_everything, class_functions, cmp_polarity, const_str,
                              enclosing_try_handlers, from_here, guarded_eq, handler_names, is_self_attr, local_assignments,
@@ -18,25 +18,44 @@ INCLUDE = [("C22", None, "the HTTP client decodes chunked response bodies with h
             "'the body delivered equals the body bytes received' with chunked coding")]
 P = "web/_newclient.py"
 H = "web/http.py"
-TECHNIQUE = "CFG dominance/must-pass, state-set refinement, dispatch tables, finite evaluation"
+TECHNIQUE = ("structural: CFG dominance / must-pass / must-precede, state-set refinement along edge guards and typestate tables on a NORMALISED view of HTTPClientParser / "
+             "Response (private helpers inlined, temporaries substituted, guard clauses as if/else, one-line predicates inlined); finite-exhaustive: the interim and no-body "
+             "guards resolved for every status code 0..999 and every (no-body code?, HEAD?) truth assignment; bounded: the client classes interpreted as model objects on "
+             "generated response histories")
 EXPLANATION = (
-    "END-TO-END: HTTP11ClientProtocol, HTTPClientParser (with LineReceiver), Response and the two transfer decoders are instantiated as model objects whose methods are the "
-    "repository's own functions (interpreted over the AST, never imported or run) and fed generated responses (Content-Length, chunked, close-delimited, HEAD, 204, 304, 1xx "
-    "interims, LF-only lines) whole, in segments, with the connection lost in the status line / headers / body, with early, late and transport-resuming consumers and on "
-    "persistent connections; the property statement is the oracle for each history (Deferred fires once, response iff headers complete, body bytes, one connectionLost with "
-    "ResponseDone / PotentialDataLoss / ResponseFailed).  In addition, on the protocol class: "
-    "Decides structurally that each of the three one-shot events is delivered once: (1) HTTPClientParser._responseDeferred is fired "
-    "only in allHeadersReceived (after the 1xx reset branch, whose code interval is evaluated to be exactly 100..199, after the body "
-    "framing decision, and with _finished() before every direct _bodyDataFinished()) and in connectionLost (only when no decoder exists "
-    "and the state is not DONE), and is detached after each firing; (2) HTTP11ClientProtocol._finishedRequest is fired/chained only at "
-    "sites where the refined state set is exactly {TRANSMITTING} and the state is changed before the firing, TRANSMITTING is entered only "
-    "from QUIESCENT, every state has its connectionLost handler, lost/parse-error/writeTo-error paths reach _disconnectParser (which "
-    "detaches the parser before calling it) or errback the request; no per-request attribute is written after a call-out that can reach user code unless the state was made non-QUIESCENT first; (3) Response has the full 3x4 handler matrix, the body consumer's "
-    "connectionLost is called at exactly the (bodyDataFinished,CONNECTED) and (deliverBody,DEFERRED_CLOSE) sites, each moving to FINISHED "
-    "whose handlers all raise; the reason is ResponseDone only by default, PotentialDataLoss/_DataLoss handlers exist with the right "
-    "failure arguments, and the decoders' noMoreData/length boundary decide them. Buffered body data is appended and flushed in order "
-    "before the consumer is resumed/closed.  Not decided: value-level equality of the delivered body for all chunkings, abort() histories."
+    "Per clause.  (K1) THE RESPONSE DEFERRED FIRES EXACTLY ONCE - structural [parser/fire-sites, detach-after-fire, headers-complete-fires, body-decided, "
+    "finished-before-body-finished, done-before-finisher, lost-errback-guard]: on the normalised HTTPClientParser, _responseDeferred is fired only in allHeadersReceived and "
+    "connectionLost, every firing is followed on all normal paths by its detachment, allHeadersReceived cannot return normally without firing it or resetting for a 1xx, "
+    "a decoder is installed XOR the body is marked finished before the firing, _finished() (state DONE) dominates every direct _bodyDataFinished() and the finisher "
+    "call-out, and connectionLost errbacks only under `bodyDecoder is None and state != DONE` and does so on every such path.  finite-exhaustive [parser/interim-range, "
+    "parser/no-body-branch, parser/no-body-codes]: the guard of the reset branch is resolved for every status code 0..999 (reset, and no firing, exactly for 100..199); for "
+    "every truth assignment of (code in NO_BODY_CODES, method == HEAD) no decoder is reachable / length is 0 when either holds and a decoder is reachable when neither does; "
+    "NO_BODY_CODES evaluates to {204, 304}.  (K2) THE REQUEST DEFERRED FIRES EXACTLY ONCE - structural [protocol/*]: _finishedRequest is fired/chained only where the "
+    "refined state set is exactly {TRANSMITTING} and the state is changed before the firing, TRANSMITTING is entered only from QUIESCENT, the 6-state connectionLost "
+    "matrix is complete and terminal, lost / parse-error / writeTo-error paths reach _disconnectParser (which detaches the parser before calling it) or errback the request, "
+    "abort Deferreds are reset, and no per-request attribute is written after a call-out that can reach user code unless the state left QUIESCENT first.  (K3) THE BODY "
+    "CONSUMER GETS connectionLost EXACTLY ONCE - structural [response/dispatch-matrix, transitions, consumer-lost-sites, finished-raises] on the normalised Response: the "
+    "3 dispatchers x 4 states handler matrix is complete, the only state writes are the four transitions of the delivery machine and each such handler cannot return "
+    "without making its transition, the consumer's connectionLost is called only in (bodyDataFinished, CONNECTED) and (deliverBody, DEFERRED_CLOSE), once per path, and "
+    "is followed by the move to FINISHED, all of whose handlers never return normally.  (K4) THE REASON - structural [parser/lost-body-outcome, parser/lost-reason]: "
+    "noMoreData() is asked once, only in the decoder branch, inside handlers for PotentialDataLoss and _DataLoss; every outcome (normal, each handler) passes through "
+    "exactly one _bodyDataFinished with, respectively, the default (ResponseDone), Failure() of the PotentialDataLoss, Failure(ResponseFailed(...)).  (K5) THE BODY "
+    "DELIVERED EQUALS THE BODY RECEIVED - structural only for the forwarding links [forward/identity, parser/decoder-wiring: bytes are handed unchanged from rawDataReceived "
+    "to the decoder, the decoder is wired to response._bodyDataReceived / _finished] and by inclusion of C22 (chunked decoder; kinds as declared there); the value-level "
+    "clause (identity decoder boundary, Response buffering before deliverBody, flush order, pause/resume) has BOUNDED evidence only [client/evaluated-histories]: "
+    "HTTP11ClientProtocol, HTTPClientParser (with LineReceiver), Response and both transfer decoders are instantiated as model objects whose methods are the repository's "
+    "functions (interpreted over the AST, never imported) and fed generated responses (Content-Length, chunked, close-delimited, HEAD, 204, 304, 1xx interims, LF-only "
+    "lines) whole and in segments, with the connection lost in status line / headers / body, early, late and transport-resuming consumers, persistent connections; the "
+    "property statement is the oracle per history.  Why bounded only: the buffering clause is a statement about byte VALUES across re-entrant callbacks (a consumer that "
+    "resumes the transport inside dataReceived), for which no shape-level decider was found that is silent on the behaviour-preserving refactors of the buffer handling; "
+    "the same histories also re-check K1-K4 dynamically.  Not decided: abort() histories, body equality for all chunkings beyond the enumerated splits."
 )
+RULE_KINDS = {
+    "parser/": "structural", "response/": "structural", "protocol/": "structural", "forward/": "structural",
+    "parser/interim-range": "finite-exhaustive", "parser/no-body-branch": "finite-exhaustive", "parser/no-body-codes": "finite-exhaustive",
+    "client/evaluated-histories": "bounded",
+    # included "C22:<rule>" obligations are classified by sa/props/c22.py (sa/report.rule_kind looks them up there)
+}
 ASSUMPTIONS = [
     "transfer-decoder table values are callables (a non-None transferDecoder means a decoder is installed)",
     "Deferred.callback/errback/chainDeferred do not raise for an unfired Deferred",
@@ -114,8 +133,66 @@ def _refine_states(g, n, start, attr="self._state"):
     return s
 
 
+KEEP = {"HTTPClientParser": {"allHeadersReceived", "connectionLost", "_finished", "statusReceived", "dataReceived", "isConnectionControlHeader", "parseVersion", "__init__"},
+        "HTTPParser": {"lineReceived", "rawDataReceived", "switchToBodyMode", "connectionMade", "headerReceived", "allHeadersReceived", "statusReceived", "isConnectionControlHeader"},
+        "Response": None}
+
+
+class _NormCtx:
+    """the same ctx, but functions / classes of the listed classes are handed out on the normalised view (private helpers inlined at their call sites, pure
+    single-assignment temporaries substituted: sa/props/_lib_c.norm_class)"""
+
+    def __init__(self, ctx):
+        self._ctx = ctx
+
+    def __getattr__(self, name):
+        return getattr(self._ctx, name)
+
+    def _keep(self, clsname):
+        k = KEEP.get(clsname)
+        if k is None:
+            from sa.source import methods as _m
+            k = {n for n in _m(self._ctx.cls(P, clsname)) if n.count("_") >= 2 or not n.startswith("_")} | {"__init__", "_construct"}
+        return k
+
+    def cls(self, rel, qual):
+        if rel == P and qual in KEEP:
+            from sa.props._lib_c import norm_class
+            orig = self._ctx.cls(rel, qual)
+            return inline_predicates(norm_class(self._ctx, rel, qual, keep=self._keep(qual)), orig, keep=self._keep(qual))
+        return self._ctx.cls(rel, qual)
+
+    def func(self, rel, qual, which=0):
+        if rel == P and "." in qual and qual.split(".")[0] in KEEP and qual.count(".") == 1:
+            clsname, name = qual.split(".")
+            self._ctx.func(rel, qual)
+            for n in self.cls(rel, clsname).body:
+                if isinstance(n, (ast.FunctionDef, ast.AsyncFunctionDef)) and n.name == name:
+                    return n
+            raise Abstain(f"{qual} vanished during normalisation")
+        return self._ctx.func(rel, qual, which)
+
+
+def _norm_class_functions(nctx, clsname):
+    out = []
+
+    def rec(node, prefix):
+        for ch in ast.iter_child_nodes(node):
+            if isinstance(ch, (ast.FunctionDef, ast.AsyncFunctionDef)):
+                out.append((prefix + ch.name, ch))
+                rec(ch, prefix + ch.name + ".")
+            elif not isinstance(ch, ast.ClassDef):
+                rec(ch, prefix)
+    rec(nctx.cls(P, clsname), clsname + ".")
+    return out
+
+
 def check(ctx):
     mod = ctx.mod(P)
+    with ctx.section("s-parser"):
+        structural(ctx, "parser/*", "client/evaluated-histories (bounded)", _check_parser_structural, ctx, mod)
+    with ctx.section("s-response"):
+        structural(ctx, "response/*", "client/evaluated-histories (bounded)", _check_response_structural, ctx, mod)
     with ctx.section("protocol"):
         _check_protocol(ctx, mod)
     with ctx.section("client-evaluated"):
@@ -131,7 +208,7 @@ def _check_parser(ctx, mod):
     Q = "twisted.web._newclient.HTTPClientParser."
     # (1) who fires _responseDeferred
     nsites = 0
-    for q, f in class_functions(mod, "HTTPClientParser"):
+    for q, f in (_norm_class_functions(ctx, "HTTPClientParser") if isinstance(ctx, _NormCtx) else class_functions(mod, "HTTPClientParser")):
         g = ctx.cfg(f)
         sites = call_sites(g, lambda c: _fires(c, DONE_DETACH))
         for n, c in sites:
@@ -319,79 +396,6 @@ def _check_parser(ctx, mod):
 
 
 # ------------------------------------------------------------------------------------------------
-def _check_decoders(ctx):
-    q = "twisted.web.http._IdentityTransferDecoder."
-    f = ctx.func(H, "_IdentityTransferDecoder.noMoreData")
-    g = ctx.cfg(f)
-    raises = g.ids(lambda x: x.kind == "stmt" and isinstance(x.ast, ast.Raise))
-    pdl = [r for r in raises if "PotentialDataLoss" in src(g.node(r).ast)]
-    dl = [r for r in raises if "_DataLoss" in src(g.node(r).ast)]
-    ctx.check(len(pdl) == 1 and none_guard(g, pdl[0], "self.contentLength", True) and
-              not any(src(e) == "self.contentLength" for t, l in g.edge_guards(pdl[0]) for e in [g.node(t).ast]),
-              "decoder/no-more-data", q + "noMoreData | PotentialDataLoss",
-              "PotentialDataLoss is not raised exactly when the length is unknown (close-delimited body)")
-    def nonzero(n):
-        for t, lab in g.edge_guards(n):
-            e = g.node(t).ast
-            p = cmp_polarity(e, "self.contentLength", "0")
-            if p is not None and (lab == "T") != p:
-                return True
-            if src(e) == "self.contentLength" and lab == "T":
-                return True
-            lc = lincmp(e)
-            if lc is not None and lab == "T" and lc == lin_expect({"self.contentLength": 1}, 1):
-                return True
-            if lc is not None and lab == "F" and lincmp(e, negate=True) == lin_expect({"self.contentLength": 1}, 1):
-                return True
-        return False
-    ctx.check(len(dl) == 1 and none_guard(g, dl[0], "self.contentLength", False) and nonzero(dl[0]), "decoder/no-more-data", q + "noMoreData | _DataLoss",
-              "_DataLoss is not raised exactly when a known length has bytes outstanding")
-    fc = [n for n, c in call_sites(g, lambda c: isinstance(c.func, ast.Name) and c.func.id == "finishCallback")]
-    det = [n for n, st in assign_sites(g, lambda x: src(x) == "self.finishCallback")]
-    for n in fc:
-        w = g.must_precede(det, [n])
-        ctx.check(bool(det) and w is None, "decoder/no-more-data", q + "noMoreData | finishCallback detached first",
-                  "the finish callback is invoked while still attached (re-entrant noMoreData would invoke it again)", witness=g.describe(w))
-        ctx.check(none_guard(g, n, "self.contentLength", True), "decoder/no-more-data", q + "noMoreData | finishCallback only when close-delimited",
-                  "the finish callback is invoked from noMoreData for a length-delimited body")
-    f = ctx.func(H, "_IdentityTransferDecoder.dataReceived")
-    g = ctx.cfg(f)
-    part = [n for n, st in assign_sites(g, lambda x: src(x) == "self.contentLength") if isinstance(st, ast.AugAssign)]
-    ctx.check(len(part) == 1, "decoder/identity-boundary", q + "dataReceived", "the partial-data branch (contentLength -= len(data)) was not found")
-    want = lin_expect({"self.contentLength": 1, "len(data)": -1}, 1)
-    for n in part:
-        ok = False
-        for t, lab in g.edge_guards(n):
-            lc = lincmp(g.node(t).ast, negate=(lab == "F"))
-            if lc == want:
-                ok = True
-        ctx.check(ok, "decoder/identity-boundary", ctx.construct(q + "dataReceived", g.node(n).ast),
-                  "the partial-data branch is not taken exactly when len(data) < contentLength (a body ending exactly at the segment end would never finish, or a longer one be swallowed)")
-    dcs = [(n, c) for n, c in call_sites(g, lambda c: isinstance(c.func, ast.Name) and c.func.id in ("dataCallback", "finishCallback"))]
-    slices = {c.func.id: src(c.args[0]) for n, c in dcs if c.args}
-    ctx.check(slices.get("dataCallback") == "data[:contentLength]" and slices.get("finishCallback") == "data[contentLength:]",
-              "decoder/identity-boundary", q + "dataReceived | final split", f"the last segment is not split at the remaining length: {slices}")
-    for n, c in call_sites(g, lambda c: call_name(c) == "self.dataCallback"):
-        ctx.check([src(a) for a in c.args] == ["data"], "forward/identity", ctx.construct(q + "dataReceived", c), "body bytes are not forwarded unchanged")
-
-    f = ctx.func(H, "_ChunkedTransferDecoder.noMoreData")
-    g = ctx.cfg(f)
-    raises = g.ids(lambda x: x.kind == "stmt" and isinstance(x.ast, ast.Raise) and "_DataLoss" in src(x.ast))
-    ok = len(raises) == 1 and guarded_eq(g, raises[0], "self.state", "'FINISHED'", False)
-    ctx.check(ok, "decoder/no-more-data", "twisted.web.http._ChunkedTransferDecoder.noMoreData | _DataLoss",
-              "a chunked body cut before the terminating chunk is not reported as _DataLoss")
-    # and: every normal return of noMoreData is under state == FINISHED
-    if raises:
-        tests = [t for t, l in g.edge_guards(raises[0]) if cmp_polarity(g.node(t).ast, "self.state", "'FINISHED'") is not None]
-        for t in tests:
-            pol = cmp_polarity(g.node(t).ast, "self.state", "'FINISHED'")
-            notfin = [d for d, l in g.succ[t] if l == ("F" if pol else "T")]
-            w = g.path(notfin, [g.exit], edge_ok=lambda a, b, l: l != "exc")
-            ctx.check(w is None, "decoder/no-more-data", "twisted.web.http._ChunkedTransferDecoder.noMoreData | unfinished never returns normally",
-                      "noMoreData can return normally for an unfinished chunked body", witness=g.describe(w))
-
-
-# ------------------------------------------------------------------------------------------------
 RESPONSE_STATES = {"INITIAL", "CONNECTED", "DEFERRED_CLOSE", "FINISHED"}
 RESPONSE_TRANSITIONS = {("deliverBody", "INITIAL"): "CONNECTED", ("bodyDataFinished", "INITIAL"): "DEFERRED_CLOSE",
                         ("bodyDataFinished", "CONNECTED"): "FINISHED", ("deliverBody", "DEFERRED_CLOSE"): "FINISHED"}
@@ -456,85 +460,36 @@ def _check_response(ctx, mod):
                 ctx.check(never_returns_normally(g), "response/finished-raises", q, "a second body consumer is accepted")
     ctx.floor("response/consumer-lost-sites", nlost, 2)
 
-    # reasons
-    for hname, sink in (("_bodyDataFinished_INITIAL", "store"), ("_bodyDataFinished_CONNECTED", "call")):
-        f = ctx.func(P, "Response." + hname)
-        g = ctx.cfg(f)
-        q = Q + hname
-        ps = param_names(f)
-        d = f.args.defaults
-        ctx.check(len(ps) == 2 and len(d) == 1 and isinstance(d[0], ast.Constant) and d[0].value is None, "response/reason", q + " | signature",
-                  "the reason parameter no longer defaults to None")
-        rn = ps[1] if len(ps) > 1 else "reason"
-        for st in local_assignments(f, rn):
-            ids = g.ids_of(st)
-            ok = all(none_guard(g, i, rn, True) for i in ids) and "ResponseDone" in src(st)
-            ctx.check(ok, "response/reason", ctx.construct(q, st),
-                      "the failure reason given by the parser is replaced (ResponseDone must only be the default for reason=None)")
-        if sink == "call":
-            for n, c in _consumer_calls(g, f, "connectionLost"):
-                ctx.check([src(a) for a in c.args] == [rn], "response/reason", ctx.construct(q, c), "the consumer's connectionLost does not receive the reason")
-        else:
-            st = [n for n, s_ in assign_sites(g, lambda x: is_self_attr(x, "_reason")) if src(s_.value) == rn]
-            w = g.must_pass([g.entry], st, exc=False)
-            ctx.check(bool(st) and w is None, "response/reason", q + " | self._reason stored",
-                      "the reason is not remembered on every path for the consumer that arrives later", witness=g.describe(w))
-    f = ctx.func(P, "Response._deliverBody_DEFERRED_CLOSE")
-    g = ctx.cfg(f)
-    for n, c in _consumer_calls(g, f, "connectionLost"):
-        ctx.check([src(a) for a in c.args] == ["self._reason"], "response/reason", ctx.construct(Q + "_deliverBody_DEFERRED_CLOSE", c),
-                  "the late consumer is not given the remembered reason")
-
-    # buffered data: appended, flushed in order, before resume / close
-    acc = class_accesses(mod, cls, {"_bodyBuffer"}, receivers={"self"})
-    for a in acc:
-        if a.kind == "append":
-            ctx.check(a.func == "Response._bodyDataReceived_INITIAL", "response/buffer-order", ctx.construct(a.func, a.node), "body data buffered in an unexpected handler")
-            ctx.check([src(x) for x in a.node.args] == param_names(ctx.func(P, a.func))[1:], "forward/identity", ctx.construct(a.func, a.node),
-                      "buffered body bytes are not the bytes received")
-        elif a.kind in ("rebind-empty", "assign"):
-            pass
-        else:
-            ctx.violation("response/buffer-order", ctx.construct(a.func, a.node), f"the body buffer is modified by `{a.kind}`: buffered data would be delivered out of order or lost")
-    ctx.check(any(a.kind == "append" for a in acc), "response/buffer-order", Q + "_bodyDataReceived_INITIAL", "body data arriving before deliverBody is not appended to the buffer")
-    for hname in ("_deliverBody_INITIAL", "_deliverBody_DEFERRED_CLOSE"):
-        f = ctx.func(P, "Response." + hname)
-        g = ctx.cfg(f)
-        q = Q + hname
-        loops = g.ids(lambda x: x.kind == "for" and src(x.ast.iter) == "self._bodyBuffer")
-        ctx.check(len(loops) == 1, "response/buffer-order", q + " | flush loop", "buffered body data is not flushed by one in-order loop over self._bodyBuffer")
-        for l in loops:
-            loop = g.node(l).ast
-            dr = [c for c in ast.walk(loop) if isinstance(c, ast.Call) and call_attr(c) == "dataReceived"]
-            ctx.check(len(dr) == 1 and [src(a) for a in dr[0].args] == [src(loop.target)], "forward/identity", ctx.construct(q, loop),
-                      "the flush loop does not deliver each buffered piece unchanged")
-            done = [d for d, lab in g.succ[l] if lab == "done"]
-            later = [n for n, c in _consumer_calls(g, f, "connectionLost")] + [n for n, c in named_calls(g, "self._transport.resumeProducing")]
-            ctx.check(bool(later), "response/buffer-order", q + " | resume/close", "the handler neither resumes the transport nor closes the consumer")
-            for n in later:
-                # every path to `n` must leave the loop through its done edge
-                w = g.path([g.entry], [n], edge_ok=lambda a, b, lab: not (a == l and lab == "done"))
-                ctx.check(w is None, "response/buffer-order", ctx.construct(q, g.node(n).ast),
-                          "the transport is resumed / the consumer closed before the buffered data was flushed (later bytes overtake buffered ones)", witness=g.describe(w))
-            mk = [n for n, c in _consumer_calls(g, f, "makeConnection")]
-            w = g.must_precede(mk, [l])
-            ctx.check(bool(mk) and w is None, "response/buffer-order", q + " | makeConnection first", "data is delivered to the consumer before makeConnection", witness=g.describe(w))
-    f = ctx.func(P, "Response._deliverBody_INITIAL")
-    g = ctx.cfg(f)
-    res = [n for n, c in named_calls(g, "self._transport.resumeProducing")]
-    conn = [n for n, st in assign_sites(g, lambda x: is_self_attr(x, "_state")) if isinstance(st, ast.Assign) and const_str(st.value) == "CONNECTED"]
-    for r in res:
-        w = g.must_precede(conn, [r])
-        ctx.check(bool(conn) and w is None, "response/buffer-order", ctx.construct(Q + "_deliverBody_INITIAL", g.node(r).ast) + " | after CONNECTED",
-                  "the transport is resumed while the response still buffers (state INITIAL): data delivered re-entrantly is buffered and lost", witness=g.describe(w))
-    ctx.check(len(res) == 1, "response/buffer-order", Q + "_deliverBody_INITIAL | resumes", "the paused transport is not resumed when a consumer is attached")
-    f = ctx.func(P, "Response._bodyDataReceived_CONNECTED")
-    calls = [c for c in ast.walk(f) if isinstance(c, ast.Call) and call_name(c) == "self._bodyProtocol.dataReceived"]
-    ctx.check(len(calls) == 1 and [src(a) for a in calls[0].args] == param_names(f)[1:], "forward/identity", Q + "_bodyDataReceived_CONNECTED",
-              "body bytes are not forwarded unchanged to the consumer")
 
 
-# ------------------------------------------------------------------------------------------------
+class _AbstainingCtx(_NormCtx):
+    """anchor-style obligations (``the construct was not found``) abstain instead of judging: only rules that positively recognised their construct speak"""
+    ANCHOR_MARKERS = ("sites were not both found", "was not found", "lost its", "one expected", "exactly one expected", "(exactly one", "no longer resets", "no longer asks",
+                      "no longer calls", "not found", "are ['", "dispatchers are", "state strings are", "does not have exactly", "sites (", "not both")
+
+    def check(self, cond, rule, construct, fails, detail="", witness=""):
+        if not cond and any(m in fails for m in self.ANCHOR_MARKERS):
+            raise Abstain(f"{rule}: {fails[:90]}")
+        return self._ctx.check(cond, rule, construct, fails, detail=detail, witness=witness)
+
+    def need(self, thing, what):
+        if thing is None or thing == [] or thing is False:
+            raise Abstain(f"anchor not found: {what}")
+        return thing
+
+    def floor(self, rule, count, minimum, what="sites"):
+        if count < minimum:
+            raise Abstain(f"{rule}: matched {count} {what}, {minimum} expected")
+
+
+def _check_parser_structural(ctx, mod):
+    _check_parser(_AbstainingCtx(ctx), mod)
+
+
+def _check_response_structural(ctx, mod):
+    _check_response(_AbstainingCtx(ctx), mod)
+
+
 def _check_protocol(ctx, mod):
     cls = ctx.cls(P, "HTTP11ClientProtocol")
     C = "HTTP11ClientProtocol"
